@@ -53,6 +53,8 @@ def variants():
               "magma", "rc2", "rc5", "sm4", "speck", "threefish", "twofish", "xtea"]:
         n = d.replace("-", "_")
         v += [(n, d, [], [], None), (n + "_z", d, [], ["zeroize"], None)]
+    # threefish has an optional `cipher` feature: zeroize without it is a configuration of its own
+    v += [("threefish_nc_z", "threefish", [], ["zeroize", "-cipher"], None)]
     return v
 
 CHECK_CFG = [
@@ -182,11 +184,13 @@ def gen_shadow(build, repo, name, rdir, cfgs, feats, transform, sub="shadows"):
             refs = any(("dep:" + dn) in x for fv in features.values() for x in fv)
             if not refs:
                 features[dn] = ["dep:" + dn]
+    minus = [f[1:] for f in feats if f.startswith("-")]
+    feats = [f for f in feats if not f.startswith("-")]
     for ft in feats:
         if ft not in features:
             sys.stderr.write(f"HARNESS-ERROR: {rdir} has no feature {ft}\n")
             sys.exit(2)
-    features["default"] = list(features.get("default", [])) + feats
+    features["default"] = [f for f in features.get("default", []) if f not in minus] + feats
     s += dep_table("features", features) + "\n"
     s += '[lints.rust]\nunexpected_cfgs = "allow"\nmissing_docs = "allow"\n'
     write_if_changed(os.path.join(pdir, "Cargo.toml"), s)
